@@ -144,9 +144,44 @@ def writer_steps(fn):
 def predicate_artifacts(fn):
     """Artifacts whose existence the loader predicate tests conjunctively: set of names ('dir' included)."""
     rets = [n for n in ast.walk(fn.node) if isinstance(n, ast.Return) and n.value is not None]
+    tested = set()
+
+    def seq_elems(e):
+        """elements of a tuple / list display, also through a single-assignment local"""
+        from ..model import inline_locals
+        e2 = inline_locals(fn.node, e)
+        if isinstance(e2, (ast.Tuple, ast.List)):
+            return list(e2.elts)
+        if isinstance(e, ast.Name):
+            defs = [st.value for st in ast.walk(fn.node) if isinstance(st, ast.Assign) and len(st.targets) == 1 and isinstance(st.targets[0], ast.Name) and st.targets[0].id == e.id]
+            if len(defs) == 1 and isinstance(defs[0], (ast.Tuple, ast.List)):
+                return list(defs[0].elts)
+        return None
+    # `for p in (a, b, c): if not p.exists(): return False` ... `return True`
+    loops = [st for st in fn.node.body if isinstance(st, ast.For)]
+    if len(loops) == 1 and isinstance(loops[0].target, ast.Name) and fn.node.body and isinstance(fn.node.body[-1], ast.Return) and \
+            isinstance(fn.node.body[-1].value, ast.Constant) and fn.node.body[-1].value.value is True:
+        lp = loops[0]
+        elems = seq_elems(lp.iter)
+        body = [st for st in lp.body if not isinstance(st, ast.Pass)]
+        if elems is not None and len(body) == 1 and isinstance(body[0], ast.If) and not body[0].orelse and len(body[0].body) == 1 and \
+                isinstance(body[0].body[0], ast.Return) and isinstance(body[0].body[0].value, ast.Constant) and body[0].body[0].value.value is False:
+            t = body[0].test
+            if isinstance(t, ast.UnaryOp) and isinstance(t.op, ast.Not) and isinstance(t.operand, ast.Call) and isinstance(t.operand.func, ast.Attribute) and \
+                    t.operand.func.attr in ("exists", "is_file", "is_dir") and isinstance(t.operand.func.value, ast.Name) and t.operand.func.value.id == lp.target.id and \
+                    len(rets) == 2:
+                return {target_of(fn, el) for el in elems}
     if len(rets) != 1:
         return None
-    tested = set()
+    # `return all(p.exists() for p in (a, b, c))`
+    v = rets[0].value
+    if isinstance(v, ast.Call) and dotted(v.func) == "all" and len(v.args) == 1 and isinstance(v.args[0], (ast.GeneratorExp, ast.ListComp)) and len(v.args[0].generators) == 1:
+        g = v.args[0].generators[0]
+        elems = seq_elems(g.iter)
+        el = v.args[0].elt
+        if elems is not None and not g.ifs and isinstance(g.target, ast.Name) and isinstance(el, ast.Call) and isinstance(el.func, ast.Attribute) and \
+                el.func.attr in ("exists", "is_file", "is_dir") and isinstance(el.func.value, ast.Name) and el.func.value.id == g.target.id:
+            return {target_of(fn, x) for x in elems}
 
     def rec(e):
         if isinstance(e, ast.BoolOp) and isinstance(e.op, ast.And):
